@@ -308,7 +308,22 @@ func RTT(sc *Scn, r *Result, i int) []Issue {
 			}
 		}
 		if first == nil {
-			continue // attribution is C01's business
+			// no reply to this TTL's probe arrived during the run. Attribution is C01's business - except for the timing
+			// half of it: the reported time is the distance between THIS probe's send time and the arrival of a reply that
+			// answers ANOTHER probe and says so (its identifier names that probe; the no-identifier caveat has been ruled
+			// out by backing()): a round-trip time measured across two probes
+			if backing(sc, r, i, h) == nil {
+				for k := range ds {
+					d := &ds[k]
+					if d.From == h.Addr && d.TTL != h.TTL && d.AtNs >= st[h.TTL] && d.AtNs <= o.EndNs {
+						if w := d.AtNs - st[h.TTL]; h.RTTus*1000 >= w-1000 && h.RTTus*1000 <= w+tol {
+							out = append(out, Issue{"measured-against-other-probe", fmt.Sprintf("hop %d: reported %dus = arrival of the reply to probe %d minus the send time of probe %d", h.TTL, h.RTTus, d.TTL, h.TTL)})
+							break
+						}
+					}
+				}
+			}
+			continue
 		}
 		want := first.AtNs - st[h.TTL]
 		got := h.RTTus * 1000
